@@ -323,18 +323,75 @@ def direct(rng, tier, focus=()):
         snet, sadr = rng.choice([5, 6, 700]), bytes([rng.randrange(1, 255)])
         order = [rng.choice([w.raw, w.raw2]) for _ in range(rng.randrange(2, 6))]
         inv = 150
+        if rng.random() < 0.5:
+            # another station claims to be the router to that network first (I-Am-Router-To-Network, broadcast)
+            liar = rng.choice([w.raw, w.raw2])
+            liar.send(C.DEV_ADDR, bytes([0x01, 0x80, 0x01, snet >> 8, snet & 255]))
+            w.settle(10.0)
         for node in order:
             a = bytearray(rp); a[2] = inv
             w.raw.frames.clear(); w.raw2.frames.clear()
             node.send(C.DEV_ADDR, C.npdu_routed(bytes(a), snet, sadr))
             w.settle(120.0)
-            got = canon_reply_frames(w.replies(both=True), inv)
+            # the reply must come back through the router that delivered this request (the newest knowledge),
+            # i.e. be addressed to that node on the LAN
+            mine = []
+            for src, dst, data in node.frames:
+                if src == str(C.DEV_ADDR):
+                    r = C.parse_npdu_apdu(data)
+                    if r is not None:
+                        mine.append(r)
+            got = canon_reply_frames(mine, inv)
             if got != [[3, 0, 0]]:
                 failures.append({'kind': 'routed-request-not-answered', 'snet': snet, 'sadr': sadr.hex(),
-                                 'routers': [str(x.address) for x in order], 'invoke': inv, 'replies': got})
+                                 'routers': [str(x.address) for x in order], 'invoke': inv, 'replies_at_delivering_router': got,
+                                 'replies_anywhere': canon_reply_frames(w.replies(both=True), inv)})
                 break
             inv += 1
         nontriv.add(('routed', snet, sadr, tuple(str(x.address) for x in order)))
+    # segmented responses toward a client that acknowledges badly or falls silent: no transaction or timer
+    # may survive, and the same invoke ID must be usable afterwards
+    from bacpypes.apdu import ReadPropertyMultipleRequest, ReadAccessSpecification, PropertyReference
+
+    def _rpm(obj, props):
+        return ReadPropertyMultipleRequest(listOfReadAccessSpecs=[ReadAccessSpecification(
+            objectIdentifier=obj, listOfPropertyReferences=[PropertyReference(propertyIdentifier=q) for q in props])])
+    # (request, max-APDU code): replies of 2 segments (59 octets at 50; 152 at 128) and of 3-4 segments (152 at 50)
+    long_reqs = [(_rpm(('analogValue', 1), ['all']), 0), (_rpm(('device', C.DEV_ADDR), ['all']), 1), (_rpm(('device', C.DEV_ADDR), ['all']), 0),
+                 (_rpm(('analogValue', 1), ['objectName', 'presentValue', 'statusFlags', 'units', 'objectIdentifier', 'objectType']), 0)]
+    for _ in range(1200 if tier == 'thorough' else 250):
+        n += 1
+        w = C.Device()
+        inv = 90
+        long_req, code = rng.choice(long_reqs)
+        apdu = C.encode_request(long_req, inv, max_resp_code=code, seg_accepted=True)
+        w.inject([C.npdu(apdu)])
+        w.settle(0.0)
+        script = []
+        for _ in range(rng.randrange(0, 4)):
+            nak, srv = rng.random() < 0.3, rng.random() < 0.15
+            seq, win = rng.choice([0, 0, 1, 1, 2, 3, 255]), rng.choice([0, 1, 2, 2, 4, 127, 128, 255])
+            ack = bytes([0x40 | (2 if nak else 0) | (1 if srv else 0), inv, seq, win])
+            if rng.random() < 0.2:
+                ack = ack[:rng.randrange(1, 4)]
+            script.append(ack)
+            w.inject([C.npdu(ack, False)])
+            w.settle(rng.choice([0.0, 0.0, 1.0, 6.0]))
+        errs = w.settle(600.0)
+        res = ssm_residue(w)
+        if res:
+            failures.append({'kind': 'residue-after-segmented-response', 'request': apdu.hex(), 'acks': [a.hex() for a in script], 'residue': res})
+        w.raw.frames.clear()
+        again = bytearray(C.encode_request(long_req, inv, max_resp_code=5, seg_accepted=False))
+        w.inject([C.npdu(bytes(again))])
+        w.settle(300.0)
+        got = canon_reply_frames(w.replies(), inv)
+        if got != [[3, 0, 0]]:
+            failures.append({'kind': 'same-invoke-id-unusable-after-segmented-response', 'request': apdu.hex(),
+                             'acks': [a.hex() for a in script], 'replies': got})
+        nontriv.add(('segresp', apdu, tuple(script)))
+    samples.append({'direct': 'segmented response + bad segment acks', 'example': 'ReadPropertyMultiple all, max-APDU 50/128, SA=1: 2-4 segments'})
+
     # link layer: corrupted / truncated / random BACnet/IP datagrams toward a B/IP device, with a valid
     # Original-Unicast request in the same instant and one afterwards
     import vnet
